@@ -4,6 +4,8 @@
 -/
 import BumpProof.Lemmas.MemOps
 
+set_option linter.unusedSimpArgs false
+
 namespace Arena
 open Rs
 
@@ -336,5 +338,15 @@ theorem allocatePreparedSlice_shapeSame {cfg : Cfg} {s s' : State} {ptr len cap 
   all_goals first
     | exact setPosAlignFrom_shapeSame (by assumption)
     | exact (copyBytes_shapeSame (by assumption)).trans (setPosAlignFrom_shapeSame (by assumption))
+
+/-- what a sane base allocator answers: non-null 16-aligned blocks that do not wrap, do not overlap
+    a chunk of the arena or each other -/
+def RespsSane (cfg : Cfg) (s : State) (resps : List BaseResp) : Prop :=
+  (∀ p g, BaseResp.granted p g ∈ resps → p ≠ 0 ∧ 16 ∣ p ∧ cfg.hdr.align ∣ p ∧ p + g < 2 ^ 64 ∧
+      ∀ c ∈ s.chunks, p + g ≤ c.base ∨ c.base + c.size ≤ p) ∧
+  resps.Pairwise (fun a b => match a, b with
+    | .granted p g, .granted q k => p + g ≤ q ∨ q + k ≤ p
+    | _, _ => True)
+
 
 end Arena
